@@ -1,6 +1,6 @@
 //! Generic driver for lists of DX scenarios, and replay of a recorded violation.
 
-use crate::ctl::{ExecCfg, ExploreCfg, ScenarioFn, explore_many, fmt_trace, run_exec};
+use crate::ctl::{ExecCfg, ExploreCfg, ScenarioFn, fmt_trace, run_exec};
 use crate::report::{Report, Tier};
 use serde_json::{Value, json};
 use std::time::Duration;
@@ -26,42 +26,85 @@ pub struct DxOpts {
 }
 
 pub fn run_items(rep: &mut Report, prop: &str, tier: Tier, items: Vec<DxItem>, opts: DxOpts) {
-    let mut work = vec![];
-    for (i, it) in items.iter().enumerate() {
-        let mut cfg = ExploreCfg::new(format!("{}#{}#{} {}", prop, tier.name(), i, it.params), it.bound);
-        cfg.time_cap = opts.time_cap;
-        cfg.known = rep.known_fn();
-        cfg.det_replays = opts.det_replays;
-        cfg.max_violations = opts.max_violations;
-        cfg.exec = it.exec.clone();
-        work.push((it.sc.clone(), cfg));
-    }
-    let results = explore_many(work, 16);
-    for (it, r) in items.iter().zip(results) {
-        match r {
-            Ok(st) => {
-                if opts.vacuity_check && st.distinct_obs < 2 && st.executions > 100 {
-                    rep.machinery(format!(
-                        "vacuous scenario {}: one observation from {} executions",
-                        it.params, st.executions
-                    ));
+    // Iterative deepening ACROSS items under one global budget (opts.time_cap): pass k explores every
+    // item whose bound is >= k at deviation bound exactly k (which includes everything below); the
+    // deepest completed pass of each item is what is reported, so a cap costs depth, never breadth.
+    let deadline = std::time::Instant::now() + opts.time_cap;
+    let maxb = items.iter().map(|i| i.bound).max().unwrap_or(0);
+    let mut best: Vec<Option<crate::ctl::ExploreStats>> = (0..items.len()).map(|_| None).collect();
+    let mut capped_at: Vec<Option<(usize, String)>> = (0..items.len()).map(|_| None).collect();
+    let mut done: Vec<bool> = vec![false; items.len()];
+    for k in 0..=maxb {
+        // pass k: items not finished yet whose requested bound reaches k; the final pass of an item is k == its bound
+        let idxs: Vec<usize> = (0..items.len()).filter(|i| !done[*i] && items[*i].bound >= k).collect();
+        let mut work = vec![];
+        for &i in &idxs {
+            let it = &items[i];
+            let mut cfg = ExploreCfg::new(format!("{}#{}#{} {}", prop, tier.name(), i, it.params), k);
+            cfg.time_cap = opts.time_cap;
+            cfg.known = rep.known_fn();
+            cfg.det_replays = if k == it.bound { opts.det_replays } else { 1 };
+            cfg.max_violations = opts.max_violations;
+            cfg.exec = it.exec.clone();
+            work.push((it.sc.clone(), cfg));
+        }
+        if work.is_empty() {
+            continue;
+        }
+        let results = crate::ctl::explore_many_opt(work, 16, false, Some(deadline));
+        for (&i, r) in idxs.iter().zip(results) {
+            match r {
+                Ok(st) => {
+                    let has_viol = !st.violations.is_empty();
+                    if st.capped && !has_viol {
+                        capped_at[i] = Some((k, st.cap_reason.clone()));
+                        done[i] = true;
+                        if best[i].is_none() {
+                            best[i] = Some(st);
+                        }
+                    } else {
+                        best[i] = Some(st);
+                        if has_viol || k == items[i].bound {
+                            done[i] = true;
+                        }
+                    }
                 }
-                if it.bound == 0 {
-                    // a B=0 item is one enumerated case of its grid: count it as a distinct case
-                    use std::hash::{Hash, Hasher};
-                    let mut h = std::collections::hash_map::DefaultHasher::new();
-                    it.params.to_string().hash(&mut h);
-                    rep.nontrivial.insert(h.finish());
+                Err(e) => {
+                    rep.machinery(e);
+                    done[i] = true;
                 }
-                if it.bound > 0 {
-                    rep.sample(json!({"scenario": it.params, "bound": it.bound, "executions": st.executions, "distinct_observations": st.distinct_obs}));
-                }
-                rep.absorb_dx(&st, it.params.clone());
             }
-            Err(e) => rep.machinery(e),
         }
     }
+    let mut min_completed: Option<usize> = None;
+    for (i, it) in items.iter().enumerate() {
+        let Some(mut st) = best[i].take() else { continue };
+        if let Some((k, why)) = &capped_at[i] {
+            st.capped = true;
+            st.cap_reason = format!("{}: bound {} of {} not completed within the global budget ({})", it.params, k, it.bound, why);
+            st.bound_completed = if *k == 0 { None } else { Some(k - 1) };
+        }
+        if it.bound > 0 {
+            let c = st.bound_completed.unwrap_or(0);
+            min_completed = Some(min_completed.map(|m: usize| m.min(c)).unwrap_or(c));
+        }
+        if opts.vacuity_check && st.distinct_obs < 2 && st.executions > 100 {
+            rep.machinery(format!("vacuous scenario {}: one observation from {} executions", it.params, st.executions));
+        }
+        if it.bound == 0 {
+            // a B=0 item is one enumerated case of its grid: count it as a distinct case
+            use std::hash::{Hash, Hasher};
+            let mut h = std::collections::hash_map::DefaultHasher::new();
+            it.params.to_string().hash(&mut h);
+            rep.nontrivial.insert(h.finish());
+        }
+        if it.bound > 0 {
+            rep.sample(json!({"scenario": it.params, "bound_requested": it.bound, "bound_completed": st.bound_completed, "executions": st.executions, "distinct_observations": st.distinct_obs}));
+        }
+        rep.absorb_dx(&st, it.params.clone());
+    }
     rep.sections.insert("dx_scenarios".into(), json!(items.len()));
+    rep.sections.insert("dx_min_bound_completed_over_deep_scenarios".into(), json!(min_completed));
 }
 
 /// Re-run exactly one recorded execution without the explorer and print what happens.
